@@ -80,10 +80,10 @@ def _is_factor(o):
     return o[0] == "call" and o[1] == "std::ops::Sub::sub" and peel(o[2][0])[0] == "call" and peel(o[2][0])[1].endswith("Decimal::one") and is_param(o[2][1], "percentage")
 
 
-def r2_r3(ctx, cfg):
+def r2_r3(ctx, cfg, R2="C16.R2", R3="C16.R3"):
     F, P = cfg.facts, cfg.prov
     key = SK + "slash"
-    f = ctx.need_fn("C16.R2", key)
+    f = ctx.need_fn(R2, key)
     if f is None:
         return
     cf = cfg_of(f)
@@ -103,7 +103,7 @@ def r2_r3(ctx, cfg):
             while rec0[0] == "vp":
                 rec0 = rec0[2]
             ok = rec0[0] == "upd" and any(p == ("stake",) and contains(v, lambda x: x[0] == "call" and x[1].endswith("Uint128::mul_floor")) for p, v in rec0[2])
-    ctx.ob("C16.R2", key, "total-stake=floor(stake*(1-p))", ok, "validator total is not stake.mul_floor(1 - percentage)", fn=f, sample="validator_info.stake.mul_floor(Decimal::one() - percentage)")
+    ctx.ob(R2, key, "total-stake=floor(stake*(1-p))", ok, "validator total is not stake.mul_floor(1 - percentage)", fn=f, sample="validator_info.stake.mul_floor(Decimal::one() - percentage)")
     # (b) stakers: closure of STAKES.update multiplies `stake` by the factor and touches nothing else
     clos = [g for g in F.lexical(key) if g.kind == "closure"]
     staker_cl = None
@@ -136,7 +136,7 @@ def r2_r3(ctx, cfg):
             n += 1
         ua = P.call_args(use[0], use[2], use[1])
         ok = ok and peel(ua[0]) == STAKES
-    ctx.ob("C16.R2", key, "each-stake*=(1-p), rewards untouched", ok, "staker update is %s" % d, fn=f, sample=d)
+    ctx.ob(R2, key, "each-stake*=(1-p), rewards untouched", ok, "staker update is %s" % d, fn=f, sample=d)
     # (c) queue entries of that validator
     ok = queue_cl is not None and filt_cl is not None
     d = "no filter/for_each over the unbonding queue"
@@ -154,15 +154,15 @@ def r2_r3(ctx, cfg):
         fg, fuse = filt_cl
         pred, args, pol = q.norm_cond(P.ret(fg), True)
         okf = pred == "eq" and pol is True and any(contains(x, lambda y: y[0] == "field" and y[2] == "validator") for x in args) and any(is_param(x, "validator") for x in args)
-        ctx.ob("C16.R3", key, "only-unbondings-of-that-validator", okf, "queue filter is %s %s" % (pred, [fmt(x)[:40] for x in args]), fn=fg, sample="filter(|ub| ub.validator == validator)")
+        ctx.ob(R3, key, "only-unbondings-of-that-validator", okf, "queue filter is %s %s" % (pred, [fmt(x)[:40] for x in args]), fn=fg, sample="filter(|ub| ub.validator == validator)")
         # for_each consumes the filtered iterator over the loaded queue, which is then saved
         src = P.call_args(use[0], use[2], use[1])[0]
         ok = ok and contains(src, lambda x: x[0] == "call" and x[1] == "std::iter::Iterator::filter") and contains(src, lambda x: x[0] == "call" and x[1] == "cw_storage_plus::Item::may_load")
-    ctx.ob("C16.R2", key, "pending-unbondings=floor(amount*(1-p))", ok, "queue update is %s" % d, fn=f, sample=d)
-    ctx.ob("C16.R2", key, "one-factor-three-sites", n == 3, "the factor (1 - percentage) is applied at %d sites, expected 3" % n, fn=f, sample="3")
+    ctx.ob(R2, key, "pending-unbondings=floor(amount*(1-p))", ok, "queue update is %s" % d, fn=f, sample=d)
+    ctx.ob(R2, key, "one-factor-three-sites", n == 3, "the factor (1 - percentage) is applied at %d sites, expected 3" % n, fn=f, sample="3")
     sv = store_calls(P, f, QUEUE, ("save",))
     ok = len(sv) == 1 and contains(P.call_args(f, sv[0][1], sv[0][0])[2], lambda x: x[0] == "call" and x[1] == "cw_storage_plus::Item::may_load")
-    ctx.ob("C16.R2", key, "slashed-queue-saved", ok, "the slashed queue is not saved", fn=f, sample="UNBONDING_QUEUE.save(queue)")
+    ctx.ob(R2, key, "slashed-queue-saved", ok, "the slashed queue is not saved", fn=f, sample="UNBONDING_QUEUE.save(queue)")
     # R3: keys written carry the slashed validator
     n = 0
     for item, names in ((STAKES, ("remove", "update", "save")), (VINFO, ("save", "remove", "update"))):
@@ -178,9 +178,9 @@ def r2_r3(ctx, cfg):
                         x[1], lambda y: y[0] == "call" and y[1] == "cw_storage_plus::Map::may_load" and peel(y[2][0]) == VINFO and is_param(y[2][2], "validator")))
             else:
                 ok = is_param(k, "validator")
-            ctx.ob("C16.R3", key, "key-of-%s.%s-is-slashed-validator%s" % (item[1].rsplit("::", 1)[1], t["callee"]["name"], q_tag(f, t)), ok,
+            ctx.ob(R3, key, "key-of-%s.%s-is-slashed-validator%s" % (item[1].rsplit("::", 1)[1], t["callee"]["name"], q_tag(f, t)), ok,
                    "%s.%s is keyed by %s" % (item[1], t["callee"]["name"], fmt(k)[:100]), fn=f, line=t["line"], sample=fmt(k)[:80])
-    ctx.floor("C16.R3", "keyed writes in slash", n, 3)
+    ctx.floor(R3, "keyed writes in slash", n, 3)
     # no bank / router call reachable from slash
     seen = set()
     stack = [key]
@@ -198,7 +198,7 @@ def r2_r3(ctx, cfg):
                 tgt = c.get("resolved") or c["key"]
                 if c["local"] and tgt in F.fns and tgt not in seen:
                     stack.append(tgt)
-    ctx.ob("C16.R3", key, "no-bank-call-reachable", not router_calls, "slash reaches %s" % router_calls, fn=f, sample="%d functions reachable, none dispatches a message" % len(seen))
+    ctx.ob(R3, key, "no-bank-call-reachable", not router_calls, "slash reaches %s" % router_calls, fn=f, sample="%d functions reachable, none dispatches a message" % len(seen))
     # the saved validator info is the loaded one with only stake (and cleared stakers) changed
     svv = store_calls(P, f, VINFO, ("save",))
     ok = len(svv) == 1
@@ -208,7 +208,7 @@ def r2_r3(ctx, cfg):
             rec = rec[2]
         ok = rec[0] == "upd" and {p for p, v in rec[2] if not (p and p[0] == "&mut")} == {("stake",)} and \
             {p for p, v in rec[2] if p and p[0] == "&mut"} <= {("&mut", "stakers")}
-    ctx.ob("C16.R3", key, "validator-info: only stake (and cleared stakers) changed", ok, "slash saves a ValidatorInfo with other fields changed", fn=f, sample="{stake} + stakers.clear()")
+    ctx.ob(R3, key, "validator-info: only stake (and cleared stakers) changed", ok, "slash saves a ValidatorInfo with other fields changed", fn=f, sample="{stake} + stakers.clear()")
 
 
 def q_tag(f, t):
